@@ -224,6 +224,9 @@ declare("ZV1", ["A int `json:\"it's\"`"], "plain")
 declare("ZV2", ["A int `json:\"a\\\\b\"`", "B string `json:\"ok\"`"], "plain")
 declare("ZV3", ["A int `json:\"a\\\"q\"`"], "plain")
 declare("ZV4", ["A int `json:\"×\"`"], "plain")
+# numeric runes that are not decimal digits (superscripts, fractions): not valid in a tag name either
+declare("ZV5", ["Area int32 `json:\"m²\"`", "Half string `json:\"x½y\"`", "K int `json:\"k9\"`"], "plain")
+declare("ZV6", ["P *int8 `json:\"¹,omitempty\"`", "Q []string `json:\"¾\"`", "Ok bool `json:\"ok_é\"`"], "plain")
 # 6. recursive
 out.append('''type ZR1 struct {
 	Next *ZR1 `json:"next,omitempty"`
